@@ -38,6 +38,20 @@ pub fn run(_st: &mut State, op: &str, cmd: &Value) -> Value {
                 value(Value::Array(out))
             })
         }
+        "codec.tex" => {
+            let b = if cmd.get("_hex").is_some() {
+                crate::ops_patch::unhex(cmd["_hex"].as_str().unwrap_or(""))
+            } else {
+                get_bytes(&cmd["bytes"])
+            };
+            guarded(|| {
+                value(opt(physis::tex::Texture::from_existing(&b), |t| {
+                    json!({"w": t.width, "h": t.height, "d": t.depth,
+                           "three_d": matches!(t.texture_type, physis::tex::TextureType::ThreeDimensional),
+                           "rgba": bytes(&t.rgba)})
+                }))
+            })
+        }
         "codec.blowfish.tables" => {
             #[cfg(physis_verif)]
             {
